@@ -89,6 +89,8 @@ type APICall struct {
 	PostFlag bool
 	PostTok  string
 	CtxKind  string
+	CtxID    int64         // validate calls whose context the application ends mid-call
+	CtxEndVT time.Duration // -1: not ended (yet)
 	Err      string
 	DelKey   bool
 	RecOK    bool // live record at return (stop calls)
@@ -265,10 +267,16 @@ func NewView(spec *Spec, ev []Event) *View {
 			}
 		case "api.call":
 			a := &APICall{Inst: e.Inst, API: e.API, Desc: e.S, Call: idx, Ret: -1, CallVT: e.VT, G: e.G, Teardown: strings.Contains(e.S, "teardown"),
-				PreToken: e.Token, PreFlag: e.Flag, CtxKind: e.S, DelKey: e.Flag && (e.API == "StopWithContext")}
+				PreToken: e.Token, PreFlag: e.Flag, CtxKind: e.S, DelKey: e.Flag && (e.API == "StopWithContext"), CtxID: e.N, CtxEndVT: -1}
 			v.APIs = append(v.APIs, a)
 			k := e.Inst + "/" + e.API + "/" + fmt.Sprint(e.G)
 			openAPI[k] = append(openAPI[k], a)
+		case "validate.ctx.end":
+			for _, a := range v.APIs {
+				if a.Inst == e.Inst && a.CtxID == e.N && e.N > 0 && (a.API == "ValidateToken" || a.API == "ValidateTokenOrDemote") {
+					a.CtxEndVT = e.VT
+				}
+			}
 		case "api.return":
 			k := e.Inst + "/" + e.API + "/" + fmt.Sprint(e.G)
 			if l := openAPI[k]; len(l) > 0 {
